@@ -356,6 +356,34 @@ func c20Calls(thorough bool) []jcall {
 			}
 		}
 	}
+	// near misses: a genuine window code with ONE digit changed, at every position, for every code length (a
+	// comparison over a prefix, a suffix or a fixed-size copy of the code accepts some of them), and with two
+	// digits swapped
+	for _, d := range []string{"6", "8", "9", "10"} {
+		dn := refDigits(d)
+		for ai, al := range []string{"SHA1", "SHA256", "SHA512"} {
+			an := refAlgo(al)
+			for _, dist := range []int64{0, 1} {
+				c := uint64(41 + ai)
+				code := ref.HOTP(c20Key, uint64(int64(c)+dist), dn, an)
+				var subs []string
+				for j := 0; j < len(code); j++ {
+					b := []byte(code)
+					b[j] = '0' + (b[j]-'0'+1+byte(j)%8)%10
+					subs = append(subs, string(b))
+					if j+1 < len(code) && code[j] != code[j+1] {
+						b = []byte(code)
+						b[j], b[j+1] = b[j+1], b[j]
+						subs = append(subs, string(b))
+					}
+				}
+				for _, sub := range subs {
+					add("near-miss", "validateHOTP", u, sub, c, d, al, 1)
+					add("near-miss", "validateTOTP", u, sub, int64(c)*30+11, d, al, 1, 30)
+				}
+			}
+		}
+	}
 	// windows beyond the documented maximum (and far beyond): refused with 'error:' by both validators, never a verdict
 	for _, sk := range []any{11, 12, 100, 255, 256, 65536, 1000000, uint64(1) << 32, uint64(1) << 53} {
 		for _, al := range []string{"SHA1", "SHA512"} {
